@@ -170,9 +170,11 @@ def _fix_spec(rng, world, ctx, g, fid):
         tp = gi.timepoints[k - 1]
         step = (gi.timepoints[1] - gi.timepoints[0]) / 2
         t = tp + step
-        tz = world["grids"][g]["tz"]
-        wall = t.tz_localize(None) if t.tzinfo is not None else t
-        I = {"$t": "datetime", "v": specs.iso(wall), "tz": tz}
+        # zone-aware grids get the instant as UTC (wall-clock strings are ambiguous in the DST fall-back hour)
+        if t.tzinfo is not None:
+            I = {"$t": "datetime", "v": specs.iso(t.tz_convert("UTC").tz_localize(None)), "tz": "UTC"}
+        else:
+            I = {"$t": "datetime", "v": specs.iso(t), "tz": None}
     elif form == "mask":
         I = {"$t": "nd_bool", "v": [i < k for i in range(T)]}
     else:
@@ -340,10 +342,10 @@ def gen_scripts(rng, world, ctx):
         gi = specs.grid_info(world, g)
         k = rng.randint(1, max(1, gi.T - 1))
         t = gi.timepoints[k]
-        wall = t.tz_localize(None) if t.tzinfo is not None else t
+        sf = specs.t_ts(t.tz_convert("UTC").tz_localize(None), "UTC") if t.tzinfo is not None else specs.t_ts(t, None)
         p = ctx["prices"][g][1]
         st = [{"op": "P.setup", "obj": P, "grid": g, "prices": p, "cast": False},
-              {"op": "slp", "obj": P, "grid": g, "start_future": specs.t_ts(wall, world["grids"][g]["tz"]),
+              {"op": "slp", "obj": P, "grid": g, "start_future": sf,
                "prices": [ctx["prices"][g][1]] * rng.choice([1, 2])}]
         if rng.random() < 0.7:
             st.append({"op": "P.setup", "obj": P, "grid": None, "prices": p, "cast": False})
